@@ -320,6 +320,25 @@ def check_pu_dtype(project: Project, rep, rule="PU-DTYPE"):
                 else:
                     rep.discharged(rule, fi, st, f"store into caller-typed copy `{tgt.value.id}` is integer-closed "
                                                  f"(value class: {c})")
+    # the flow-insensitive variant: arrays created with *_like / views / np.array(...) of caller data (rules/dtype_rule.py)
+    from . import dtype_rule
+    seen_nodes = set()
+    n_fn = 0
+    for q, fi in sorted(project.functions.items()):
+        if not isinstance(fi.node, (ast.FunctionDef, ast.AsyncFunctionDef)):
+            continue
+        n_fn += 1
+        for h in dtype_rule.analyse(project, fi):
+            if id(h["node"]) in seen_nodes:
+                continue
+            seen_nodes.add(id(h["node"]))
+            rep.refuted(rule, fi, h["node"],
+                        h["why"] + ": for integer input (a diagram written with ints) numpy truncates what is stored, so the "
+                                   "result depends on whether the same numbers are given as int or float",
+                        construct=f"{fi.qualname}: {ast.unparse(h['node'])[:100]}")
+            n_flag += 1
+    rep.discharged(rule, None, None, f"{n_fn} functions inspected: no floating-point store into an array whose dtype is "
+                                     f"inherited from the caller's data (*_like, views, np.array without dtype)")
     return n_flag, sites
 
 
